@@ -98,7 +98,15 @@ func (r *Run) report(noEvidence bool) int {
 		}
 		violLines = append(violLines, fmt.Sprintf("VIOLATION property=%s replay=%s obligation=%q status=%s%s", orAll(r.prop), path, key, st, suffix))
 	}
+	undecided := 0
 	for _, e := range r.engineErrors {
+		if strings.Contains(e, "contract error") {
+			// the contract cannot be applied to this code (a local it names was renamed, a loop was added or removed, ...):
+			// nothing is decided for this function. That is not a failed obligation, so it is not reported as a violation.
+			undecided++
+			violLines = append(violLines, fmt.Sprintf("UNDECIDED property=%s %s (the contract no longer matches the code of this function; no obligation was generated for it)", orAll(r.prop), e))
+			continue
+		}
 		violations++
 		os.MkdirAll(replayDir, 0o755)
 		path := filepath.Join(replayDir, "engine-"+sanitize(e)[:min(60, len(sanitize(e)))]+".txt")
@@ -191,7 +199,7 @@ func (r *Run) report(noEvidence bool) int {
 	if violations > 0 {
 		return 1
 	}
-	if infra {
+	if infra || undecided > 0 {
 		return 2
 	}
 	return 0
